@@ -92,7 +92,8 @@ def cases(tier):
                      ("(and (or (not (r)) (<= (/ (f) (+ (g ?y) 2)) 1)))",
                       "(and (forall (?z - t1) (when (> (- (g ?z) (+ (f) (g ?x))) 0) (p ?z))))"),
                      ("(and (or (r) (<= (/ (f) (* 2 (g ?x))) 3)))", "(and (when (< (/ (g ?y) (* (f) (g ?x))) 1) (not (r))))"),
-                     ("(and (p ?x) (or (> (* (+ (f) 1) (- (g ?x) 2)) 0) (q ?x ?y)))", "(and (r))")):
+                     ("(and (p ?x) (or (> (* (+ (f) 1) (- (g ?x) 2)) 0) (q ?x ?y)))", "(and (r))"),
+                     ("(and (or (r) (<= (/ 1 (* (g ?x) (g ?x))) 0.3)))", "(and (when (> (/ 1 (* (g ?x) (* (g ?x) (g ?x)))) 0.2) (not (r))))")):
         c = vdom.program("xy", pre, eff, ["const", "identity-operands"])
         c["kind"] = "generated"
         c["max_states"] = 16
